@@ -7,7 +7,7 @@ SPEC = {
     "required_theorems": [
         "C09_accept_iff", "C09_accept_root_is_current", "C09_reject_no_leaf", "C09_other_methods_no_leaf",
         "C09_pool_only_by_admission", "C09_ikh_choice", "C09_issuers", "C09_issuers_invariant",
-        "C09_roots", "C09_roots_exact", "C09_roots_bad_bundle",
+        "C09_roots", "C09_roots_exact", "C09_roots_bad_bundle", "C09_issuer_fault", "C09_issuer_fault_invariant", "uploadissuer_order",
         "flow", "entry_assigns", "type_addchain", "type_addprechain", "handler_addchain", "handler_addprechain",
         "routes", "max_body", "validate_opts", "window", "addleaf_order", "getroots", "rootpool", "setroots",
     ],
